@@ -20,7 +20,7 @@ RULE = ("as C01, biased to what bound inference reads: top-level relational and 
 
 if __name__ == "__main__":
     common.run_main(lambda: solvecheck.standard_main(
-        "C14", ["C14", "C14Fix"], THEOREMS, PROFILE, 300, 12000,
+        "C14", ["C14", "C14Fix", "C14Bridge"], THEOREMS, PROFILE, 300, 12000,
         ["as C01 for the solve itself", "uniformity of random.Random.randint is assumed for the probability reading of target_returned",
          "generator restricted to one signedness per scenario without wrap-around (F21 is replayed by its witness)"],
         RULE, bounds=True))
